@@ -5,7 +5,7 @@ from props._semprop import simple
 from common import prove
 
 MODULE = 'Proofs.Props.C06'
-THEOREMS = ['Facto.get_evalDecider_single', 'Facto.rule_cmp', 'Facto.Circuit.settle', 'Facto.Circuit.settled_fixpoint', 'Facto.quantCond_sound', 'Facto.enable_sound', 'Facto.enable_end_to_end', 'Facto.checkAll_sound', 'Facto.bundle_end_to_end', 'Facto.scalar_end_to_end']
+THEOREMS = ['Facto.get_evalDecider_single', 'Facto.rule_cmp', 'Facto.Circuit.settle', 'Facto.Circuit.settled_fixpoint', 'Facto.quantCond_sound', 'Facto.enable_sound', 'Facto.enable_end_to_end', 'Facto.checkAll_sound', 'Facto.bundle_end_to_end', 'Facto.scalar_end_to_end', "Facto.enable_end_to_end_pruned", "Facto.prune_enabled"]
 
 
 def run(res, tier):
